@@ -715,3 +715,52 @@ def open_sites_through_helpers(prog: Program, effects: T.Any, fn: FunctionInfo, 
                     return copy.deepcopy(mapping[node.id]) if node.id in mapping else node
             out.append((c, owner, inline(fn, Sub().visit(copy.deepcopy(pexpr)), prog, consts=False), kws))
     return out
+
+
+# --------------------------------------------------------------------------- one-expression helpers
+def inline_simple_calls(prog: T.Optional[Program], fn: FunctionInfo, expr: ast.AST, depth: int = 3) -> ast.AST:
+    """Replace calls of one-expression helpers (a closure defined in fn, or a function of fn's module, whose body is a
+    single `return <expr>` after an optional docstring) by that expression with the parameters substituted."""
+    import copy
+    local_defs_: T.Dict[str, ast.FunctionDef] = {n.name: n for n in ast.walk(fn.node) if isinstance(n, ast.FunctionDef) and n is not fn.node}
+
+    def body_expr(fd: ast.FunctionDef) -> T.Optional[ast.AST]:
+        body = [st for st in fd.body if not (isinstance(st, ast.Expr) and isinstance(st.value, ast.Constant))]
+        if len(body) == 1 and isinstance(body[0], ast.Return) and body[0].value is not None:
+            return body[0].value
+        return None
+
+    class Sub(ast.NodeTransformer):
+        def __init__(self, mapping: T.Dict[str, ast.AST]):
+            self.mapping = mapping
+        def visit_Name(self, node: ast.Name) -> ast.AST:
+            if isinstance(node.ctx, ast.Load) and node.id in self.mapping:
+                return copy.deepcopy(self.mapping[node.id])
+            return node
+
+    class Inl(ast.NodeTransformer):
+        def __init__(self, d: int):
+            self.d = d
+        def visit_Call(self, node: ast.Call) -> ast.AST:
+            self.generic_visit(node)
+            if self.d <= 0 or not isinstance(node.func, ast.Name) or node.keywords and any(k.arg is None for k in node.keywords):
+                return node
+            fd = local_defs_.get(node.func.id)
+            if fd is None and prog is not None and node.func.id in fn.module.functions:
+                fd = fn.module.functions[node.func.id].node
+            if fd is None or fd.args.vararg or fd.args.kwarg:
+                return node
+            be = body_expr(fd)
+            if be is None:
+                return node
+            params = [a.arg for a in fd.args.args]
+            if len(node.args) > len(params):
+                return node
+            mapping: T.Dict[str, ast.AST] = dict(zip(params, node.args))
+            for k in node.keywords:
+                mapping[k.arg] = k.value
+            if set(params) - set(mapping):
+                return node
+            out = Sub(mapping).visit(copy.deepcopy(be))
+            return Inl(self.d - 1).visit(out)
+    return ast.fix_missing_locations(Inl(depth).visit(copy.deepcopy(expr)))
